@@ -160,9 +160,18 @@ def plan(ctx):
     units += [("shared", d, i, 4) for d in DRAFTS for i in range(4)]
     units += [("ordered", d, i, 4) for d in DRAFTS for i in range(4)]
     units += [("mutated", d, i, 2) for d in DRAFTS for i in range(2)]
+    for d in ((7, 3) if ctx.tier == "quick" else DRAFTS):
+        for ci in range(len(T_CASES)):
+            for form in (("enum1", "const", "uniqueItems") if d >= 6 else ("enum1", "uniqueItems")):
+                for shared in (False, True):
+                    units.append(("threads", d, ci, form, shared, "call", 2 if ctx.thorough else 1))
+                    if ci == 0:
+                        units.append(("threads", d, ci, form, shared, "line", 1))
     return {
         "units": units,
-        "rule": ("M: for every ordered pair of the 40-value sub-universe one array object [a, b] and one validator: "
+        "rule": ("T: two real threads validate the SAME instance object against the SAME schema object (one validator "
+                 "or two) under the baton scheduler, every schedule with <= 1 preemption at call (and line) "
+                 "granularity, 4 container pairs x enum / const / uniqueItems.  M: for every ordered pair of the 40-value sub-universe one array object [a, b] and one validator: "
                  "validated as built, after the second element was replaced in place by a copy of the first, after "
                  "it was restored, after the array was reversed in place.  O: every ordered pair of the 40-value sub-universe with the objects of either or both sides given "
                  "as collections.OrderedDict (what json.load(object_pairs_hook=OrderedDict) produces), member order "
@@ -711,9 +720,65 @@ def run_mutated(unit, ctx):
             "outcomes": outcomes, "counters": {"violating_executions": bag.total, "in_place_edit_cases": ev}}
 
 
+# ---- two threads comparing the SAME objects at the same time -----------------------------------------------
+T_CASES = [
+    # (constant in the schema, instance), both containers so that the comparison recurses; verdict per form
+    (["k", 3], ["k", 2]), ({"a": [1, 2], "b": {"c": 0}}, {"a": [1, 2], "b": {"c": False}}),
+    ([[1], [2], [3]], [[1], [2], [3]]), ({"a": {"b": {"c": [1, "x"]}}}, {"a": {"b": {"c": [1, "y"]}}}),
+]
+
+
+def t_bodies(d, ci, form, shared_validator):
+    c, x = T_CASES[ci]
+    c, x = fresh_copy(c), fresh_copy(x)
+    if form == "uniqueItems":
+        S, inst = {"uniqueItems": True}, [c, x]
+    elif form == "const":
+        S, inst = {"const": c}, x
+    else:
+        S, inst = {"enum": [c]}, x
+    v1 = CLS[d](S)
+    v2 = v1 if shared_validator else CLS[d](S)      # the same schema and instance OBJECTS in both threads
+    return [lambda: observe(v1, inst), lambda: observe(v2, inst)]
+
+
+def t_expected(ci, form):
+    c, x = T_CASES[ci]
+    eq = equality.jeq(c, x)
+    return (not eq) if form == "uniqueItems" else eq
+
+
+def run_threads(unit, ctx):
+    import os
+    import jsonschema
+    from mc.explore import threads
+    _, d, ci, form, shared, gran, bound = unit
+    pkg = os.path.dirname(os.path.abspath(jsonschema.__file__))
+    want = t_expected(ci, form)
+
+    def check(results):
+        for i, r in enumerate(results):
+            if r is not want:
+                return {"thread": i, "observed": r, "expected_valid": want}
+        return None
+    r = threads.explore(lambda: t_bodies(d, ci, form, shared), check, pkg, gran, bound)
+    bag = Bag()
+    for choices, bad in r["problems"]:
+        bag.add({"signature": "C08|threads|%s|%s" % (form, "one-validator" if shared else "two-validators"),
+                 "size": len(choices),
+                 "case": {"draft": d, "form": "threads", "case_index": ci, "which": form, "shared_validator": shared,
+                          "granularity": gran, "choices": choices}, "detail": bad})
+    outcomes = {"threads-preemptions=%d" % k: v for k, v in r["by_preemptions"].items()}
+    return {"evaluations": r["schedules"], "nontrivial": sum(v for k, v in r["by_preemptions"].items() if k > 0),
+            "violations": bag.all(), "samples": [], "outcomes": outcomes,
+            "counters": {"violating_executions": bag.total, "thread_schedules": r["schedules"]}}
+
+
 def run_unit(unit, ctx):
     if unit[0] == "pairs":
         return run_pairs(unit, ctx)
+    if unit[0] == "threads":
+        return run_threads(unit, ctx)
     if unit[0] == "mutated":
         return run_mutated(unit, ctx)
     if unit[0] == "ordered":
@@ -728,6 +793,16 @@ def replay(case, ctx):
     if case["form"] == "check_schema":
         ok = check_schema_ok(d, case["schema"])
         return {"reproduced": not ok, "check_schema_accepts": ok}
+    if case["form"] == "threads":
+        import os
+        import jsonschema
+        from mc.explore import threads
+        pkg = os.path.dirname(os.path.abspath(jsonschema.__file__))
+        sc = threads.Sched(t_bodies(d, case["case_index"], case["which"], case["shared_validator"]), case["choices"], pkg,
+                           case["granularity"])
+        results, points = sc.run()
+        want = t_expected(case["case_index"], case["which"])
+        return {"reproduced": any(r is not want for r in results), "results": results, "expected_valid": want}
     if case["form"] == "mutated":
         w = CLS[d]({"uniqueItems": True})
         a, b = case["a"], case["b"]
